@@ -84,17 +84,17 @@ OPTS_Q = [(), ('amp',), ('b5',), ('nc2',), ('amp', 'ns.5'), ('thr1',), ('amp', '
 
 
 def spaces(tier, seed):
-    if tier == 'quick':
-        al = S.alphabet(6)
-        return [ProductSpace('W(3,7)-edges', S.word_dims(['a', 'd', 'n'], 7) + [[()]], evaluate,
-                             describe='7-letter words (bursts with edges): mirror also after recompute_edges'),
-                ProductSpace('W(6,5)xopts', S.word_dims(al, 5) + [OPTS_Q[:2]], evaluate, bounds={'letters': al}),
-                ProductSpace('W(4,5)xopts', S.word_dims(S.alphabet(4), 5) + [OPTS_Q[2:]], evaluate,
-                             bounds={'letters': S.alphabet(4), 'option_sets': len(OPTS_Q[2:])})]
-    al = S.alphabet(8, seed, extra=2)
-    devs = [d for d in S.option_sets(2, [k for k in S.DEVIATIONS if k not in ('trough', 'nosamp', 'neg')])]
-    return [ProductSpace('W(4,8)-edges', S.word_dims(['a', 'd', 'n', 'b'], 8) + [[(), ('thr1',)]], evaluate),
-            ProductSpace('W(10,5)xcore', S.word_dims(al, 5) + [[(), ('amp',)]], evaluate, bounds={'letters': al}),
-            ProductSpace('W(6,6)xcore', S.word_dims(S.alphabet(6), 6) + [[(), ('amp',)]], evaluate),
-            ProductSpace('W(5,5)x2dev', S.word_dims(S.alphabet(5), 5) + [devs], evaluate,
-                         bounds={'option_sets': len(devs), 'max_deviations': 2})]
+    al = S.alphabet(6)
+    out = [ProductSpace('W(3,7)-edges', S.word_dims(['a', 'd', 'n'], 7) + [[()]], evaluate,
+                        describe='7-letter words (bursts with edges): mirror also after recompute_edges'),
+           ProductSpace('W(6,5)xopts', S.word_dims(al, 5) + [OPTS_Q[:2]], evaluate, bounds={'letters': al}),
+           ProductSpace('W(4,5)xopts', S.word_dims(S.alphabet(4), 5) + [OPTS_Q[2:]], evaluate,
+                        bounds={'letters': S.alphabet(4), 'option_sets': len(OPTS_Q[2:])})]
+    if tier != 'quick':
+        al = S.alphabet(6, seed, extra=2)
+        devs = [d for d in S.option_sets(2, [k for k in S.DEVIATIONS if k not in ('trough', 'neg', 'int16big')])]
+        out += [ProductSpace('W(4,8)-edges', S.word_dims(['a', 'd', 'n', 'b'], 8) + [[()]], evaluate),
+                ProductSpace('W(8,5)xcore', S.word_dims(al, 5) + [[(), ('amp',)]], evaluate, bounds={'letters': al}),
+                ProductSpace('W(3,5)x2dev', S.word_dims(S.alphabet(3), 5) + [devs], evaluate,
+                             bounds={'option_sets': len(devs), 'max_deviations': 2})]
+    return out
